@@ -6,7 +6,7 @@ From Centro Require Import Base.Sx Base.EmdBase Spec.Emd Model.Emd Model.EmdCert
   Proofs.EmdFuel Proofs.EmdHeap Proofs.EmdTransform Proofs.EmdHeapPos Proofs.EmdHeapOrd Proofs.EmdPotential
   Proofs.EmdMcfCert Proofs.EmdHeapMem Proofs.EmdDijkstra Proofs.EmdDijkstraInit
   Proofs.EmdTight Proofs.EmdGhost Proofs.EmdCspPost Proofs.EmdPairAddr Proofs.EmdGraphShape Proofs.EmdAugment Proofs.EmdRun Proofs.EmdConserve Proofs.EmdConserveRun Proofs.EmdIndex Proofs.EmdOptimal Proofs.EmdWrap.
-From Centro Require Import Model.EmdAsIs.
+From Centro Require Import Model.EmdAsIs Model.EmdW Proofs.EmdWrap2.
 From Centro Require Import Model.EmdMcf.
 Import ListNotations.
 Open Scope Z_scope.
@@ -605,3 +605,46 @@ Print Assumptions C10_artificial_cost_wrap_refuted.
 Theorem C10_wrap32_small : forall z, 0 <= z <= 2147483646 -> wrap32 (z + 1) = z + 1.
 Proof. exact wrap32_small. Qed.
 Print Assumptions C10_wrap32_small.
+
+(* ------------------------------------------------------------------------------------------------
+   Round 13.  Finding family F25 (known): int32 intermediate overflow in FastEMD although every input
+   entry and the true result fit int32.  Model/EmdW.v is the whole pipeline with a function w applied
+   to every int addition / subtraction / negation / multiplication of the C++ (w = wrap32: as written
+   for NUM_T = int; w = identity: exact).  Kernel-evaluated witnesses: *)
+Theorem C10_int32_sp_overflow_refuted :
+  emd_hat_int32_w wrap32 [1; 2] [1; 1] [[1; 1]; [two30; two30 + 1]] (Some 0) 2 false = (0, 1073741826, [[1; 0]; [0; 1]]) /\
+  emd_hat_int32_w exactw [1; 2] [1; 1] [[1; 1]; [two30; two30 + 1]] (Some 0) 2 false = (0, 1073741825, [[0; 1]; [1; 0]]) /\
+  emd_certified [1; 2] [1; 1] [[1; 1]; [two30; two30 + 1]] (Some 0) 2 false = Some (1073741825, [[0; 1]; [1; 0]]) /\
+  emd_hat_int32_w wrap32 [1; 2] [1; 1] [[1; 1]; [two30 - 1; two30]] (Some 0) 2 false = (0, 1073741824, [[0; 1]; [1; 0]]).
+Proof. exact int32_sp_overflow_refuted. Qed.
+Print Assumptions C10_int32_sp_overflow_refuted.
+
+Theorem C10_int32_mass_sum_refuted :
+  emd_hat_int32_w wrap32 [1] [two30; two30] [[0; 1]] (Some 0) 2 false = (0, 2147483647, [[1; 0]]) /\
+  emd_hat_int32_w exactw [1] [two30; two30] [[0; 1]] (Some 0) 2 false = (0, 0, [[1; 0]]) /\
+  emd_certified [1] [two30; two30] [[0; 1]] (Some 0) 2 false = Some (0, [[1; 0]]).
+Proof. exact int32_mass_sum_refuted. Qed.
+Print Assumptions C10_int32_mass_sum_refuted.
+
+Theorem C10_int32_hang_refuted :
+  fst (fst (emd_hat_int32_w wrap32 [1; 1] [1; 1] [[1000000000; 2000000000]; [1000000000; 1000000000]] None 0 false)) = 1 /\
+  fst (fst (emd_hat_int32_w wrap32 [1; 0] [0; 1] [[0; 5]; [2147483647; 0]] None 0 false)) = 1 /\
+  emd_certified [1; 1] [1; 1] [[1000000000; 2000000000]; [1000000000; 1000000000]] None 0 false = Some (2000000000, []).
+Proof. exact int32_hang_refuted. Qed.
+Print Assumptions C10_int32_hang_refuted.
+
+(* C10_no_wrap_below_bound — PARTIAL.  FULL statement aimed at: if every intermediate of the exact run
+   (w = identity) on an input has magnitude < 2^31, then emd_hat_int32_w wrap32 = emd_hat_int32_w exactw
+   on that input — the sharp hypothesis under which the optimality theorems speak about the int32 code.
+   PROVED: the per-operation half — an int operation whose exact result is representable is unchanged
+   by the wrap, and a sequential int accumulation whose partial sums are all representable equals the
+   exact sum.  MISSING: lemma wrapped_run_simulation (thread "all intermediates so far representable"
+   through reduce_w / mcf_iter_w / read_back_w / transform_w; needs the model in a form that records
+   its intermediates).  Used operationally instead: a failure is attributed to F25 only if the
+   as-written model DIFFERS from the exact model on that input and reproduces the implementation. *)
+Theorem C10_no_wrap_below_bound_partial :
+  (forall z, -2147483648 <= z <= 2147483647 -> wrap32 z = z) /\
+  (forall l s, (forall k, (k <= length l)%nat -> -2147483648 <= s + zsum (firstn k l) <= 2147483647) ->
+     fold_left (fun s x => wrap32 (s + x)) l s = s + zsum l).
+Proof. exact (conj wrap32_id wsum_exact). Qed.
+Print Assumptions C10_no_wrap_below_bound_partial.
